@@ -17,7 +17,7 @@ LEVEL_TEXT = ('fault enumeration for the write part: a fault-free run yields the
               'each followed by a fault-free retry; exploration for the rejected-call part (12 rejection classes x positions)')
 LEVEL_NOTE = ('trusted: projection builder, SimFile fault model (errors raised before effect or after a real partial write), '
               'sys.settrace line events as interrupt points; bounded liveness = the retry completes within its own call')
-TIERS = {'quick': {'cases': 420, 'wall': 45, 'faults_per_case': 5}, 'thorough': {'cases': 60000, 'wall': 840, 'faults_per_case': 10 ** 6}}
+TIERS = {'quick': {'cases': 1000, 'wall': 45, 'faults_per_case': 5}, 'thorough': {'cases': 60000, 'wall': 840, 'faults_per_case': 10 ** 6}}
 RULE = ('case = seeded specification with 0-3 rejected calls inserted, written, then (fault part) re-executed once per enumerated '
         'fault point with a retry; non-trivial = at least one call was actually rejected or one fault actually fired before the '
         'compared write; distinct = case digest')
